@@ -14,10 +14,11 @@ CHECKS = {
     "C09": dict(
         level="model_checking",
         technique=E1 + "; step invariant after every opcode",
-        text="Every opcode sequence over a 37-44 symbol typed alphabet up to depth 4 (quick) / 5 (thorough), and every prefix of "
-        "every corpus pickle at protocols 0-5, is stepped on CPython's pure-Python unpickler and on fickling's Interpreter; "
+        text="Every opcode sequence over a 37-44 symbol typed alphabet up to depth 4 (quick) / 5 (thorough), a 17-symbol stack-discipline "
+        "alphabet two levels deeper, every prefix of every corpus pickle at protocols 0-5 and of every deviation-1 variant (single "
+        "opcode deleted / replaced / inserted) of natural pickles, is stepped on CPython's pure-Python unpickler and on fickling's Interpreter; "
         "stack depth, mark positions and memo keys are compared after every opcode, and Trace.run is compared with untraced "
-        "decompilation on every terminal program. Exhaustive within the bound, which is where stack-effect bugs live (one "
+        "decompilation on every terminal program (fresh interpreter, interpreter that already ran, traced twice). Exhaustive within the bound, which is where stack-effect bugs live (one "
         "opcode x one continuation).",
         ref="§3/C09, §2/E1",
         note="Trusted: CPython's pure-Python unpickler as the reference VM; the typing discipline that disables ill-typed mutator "
@@ -28,8 +29,9 @@ CHECKS = {
         technique=E1 + "; terminal oracle: VM import/call event multiset included in the events of the decompiled program run against the same stubs",
         text="Every program over a 29-symbol exec alphabet (3 resolving x 6 call-making opcodes, POP/POP_MARK/DUP/memo traffic) to depth 4/5, "
         "a 15-symbol core one level deeper, every opcode class of pickletools in every position of length<=3 programs, and the object "
-        "corpus at protocols 0-5: the reference VM's import and call events (callee + argument snapshot at call time) must be a "
-        "sub-multiset of those of the decompiled source executed under the same stubs. The failure mode is an interaction of two "
+        "corpus at protocols 0-5 plus all deviation-1 variants of it: the reference VM's import, call and BUILD/__setstate__ events "
+        "(callee + argument snapshot at call time) must be a sub-multiset of those of the decompiled source executed under the same stubs, "
+        "and a real call may not be rendered through __new__. The failure mode is an interaction of two "
         "opcodes (call-maker x disposer), i.e. exactly what exhaustive short sequences cover.",
         ref="§3/C03, §2/E1",
         note="Trusted: pure-Python unpickler as reference; stub world (NEWOBJ rendered as a call, frozenset transparent); bounded alphabet/depth.",
@@ -39,15 +41,17 @@ CHECKS = {
         technique=E1 + "; terminal oracle: severity >= floor computed from the reference VM's event log and generator-fixed labels; plus an exhaustive template product",
         text="Ground truth (what would be resolved / called) comes from executing each program on the reference VM with inert stubs and from "
         "labels fixed in vp/vocab.py, never from fickling. Explored: all programs over core+labelled-global alphabets to depth 4/5 (2-3 "
-        "vocabulary groups) and the full product vocabulary(29) x resolve form(4) x call form(8) x disposal(11) x prefix(5).",
+        "vocabulary groups incl. same-named benign/dangerous pairs), deviation-1 variants of natural object pickles, and the full "
+        "product vocabulary(31) x resolve form(8, incl. sparse/overwriting memo layouts) x call form(8) x disposal(11) x prefix(6).",
         ref="§3/C04",
         note="Trusted: the label table; the floor table transcribed from the property statement; one-directional comparison.",
     ),
     "C05": dict(
         level="model_checking",
         technique=E1 + "; terminal oracle: canonical value of exec(decompiled) under stubs == canonical value built by the reference VM; plus plain-data round trip",
-        text="All programs over a 27-symbol data alphabet to depth 4 (quick) / 6 (thorough, ~12M transitions), a 14-symbol aliasing alphabet two "
-        "levels deeper, data+object alphabet, full opcode-class pass, object corpus, and ~2-5k plain values x protocols 0-5 x framed/unframed "
+        text="All programs over a 27-symbol data alphabet to depth 4 (quick) / 6 (thorough, ~12M transitions), aliasing / object-state / "
+        "duplicate-key / memo-layout alphabets two levels deeper, data+object alphabet, full opcode-class pass, object corpus and its "
+        "deviation-1 variants, and ~2-5k plain values x protocols 0-5 x framed/unframed "
         "whose decompiled source must exec to an equal object of the same type.",
         ref="§3/C05",
         note="Trusted: reference VM; canonicalisation (dict/set order-insensitive, floats by repr); cyclic values excluded.",
@@ -55,17 +59,18 @@ CHECKS = {
     "C13": dict(
         level="model_checking",
         technique=E2 + " (here: every sequence of the six read-only queries of length 3/4 on every E1 terminal program), plus digest tables from child processes under different PYTHONHASHSEED",
-        text="For every terminal program of a 33-symbol alphabet to depth 3/4 (and a narrow alphabet one deeper) and a corpus subset, every "
-        "history of {unparse, check_safety, trace, summaries, dumps, reparse} of the stated length is replayed on a fresh parse and every "
-        "answer compared with a fresh object's first answer; the per-program answer digests are recomputed in 3 processes with different hash seeds.",
+        text="For every terminal program of a 34-symbol alphabet to depth 3/4 (a narrow alphabet one deeper, and a macro alphabet that "
+        "builds repeated identical calls) and a corpus subset, every history of {unparse, check_safety, trace, summaries, dumps, reparse} of "
+        "length 3/4 and every pair of 11 fine-grained queries is replayed on a fresh parse and every answer compared with a fresh object's first answer; the per-program answer digests are recomputed in 3 processes with different hash seeds.",
         ref="§3/C13",
         note="Trusted: finite set of hash seeds; findings compared as a set.",
     ),
     "C19": dict(
         level="model_checking",
         technique=E1 + "; terminal oracle: check_safety returns well-formed JSON-serialisable findings and the checked loader's error carries the same report; plus an exhaustive module x name x opcode x PROTO product",
-        text="All decompilable programs over core + special-cased globals to depth 4/5, and the product 24 modules x 17 attribute names (every "
-        "name a rule special-cases) x 2 resolving opcodes x 7 uses x 5 PROTO placements (~28k programs).",
+        text="All decompilable programs over core + special-cased globals to depth 4/5, a statement-shape alphabet one deeper, the corpus and "
+        "its deviation-1 variants, and the product 24 modules x 17 attribute names (every name a rule special-cases) x 2 resolving opcodes x "
+        "7 uses x 5 PROTO placements (~28k programs); the loader's error report is compared at three thresholds.",
         ref="§3/C19",
         note="Trusted: pickle.loads replaced by a recorder during fickling.load so nothing generated is really unpickled.",
     ),
@@ -91,8 +96,9 @@ CHECKS = {
     "C14": dict(
         level="model_checking",
         technique=E2 + "; state = (opcode encodings, cached AST digest, cached properties digest); oracle = every view equals that of a fresh Pickled(list(p))",
-        text="All histories of 57 operations (insert/delete/replace/slice-assign/append/extend/pop/reverse/+=/remove, the five injection helpers, "
-        "and explicit reads of ast / properties / severity) to depth 3 (quick) / 4 from 4/6 base pickles; after every step ast, import/call "
+        text="All histories of 61 core operations (insert/delete/replace/slice-assign/append/extend/pop/reverse/+=/remove at first, last and "
+        "negative positions, the injection helpers, explicit reads of ast / properties / severity / dumps) to depth 3 (quick) / 4, and of "
+        "the full 89-operation menu (NoOp-class and constant-for-constant edits added) one level shallower, from 6/8 base pickles; after every step ast, import/call "
         "summaries, verdict and dumps() are compared with a freshly constructed Pickled over the same opcode list, and dumps() with the "
         "concatenation of the opcodes' encodings.",
         ref="§3/C14",
@@ -101,7 +107,8 @@ CHECKS = {
     "C02": dict(
         level="fault_enumeration",
         technique=E3F + ": inputs x arming paths x stream kinds x thresholds, plus a stream whose content flips after the k-th read/seek/tell call for every k",
-        text="15 inputs (one per reachable severity, benign structured values, 7 inputs on which parsing/analysis raises while naming a sink call) x "
+        text="23 inputs (one per reachable severity, benign structured values, flagged pickles without any GLOBAL opcode, 11 inputs on which "
+        "parsing/analysis raises while naming a sink call) x "
         "3 arming paths x 4 stream kinds x 6 thresholds, each executed on the real loader under a find_class audit monitor and a harmless sink; "
         "then for each arming path every fault point k of an instrumented stream that swaps benign/malicious content of equal length after "
         "its k-th call (both directions). Returned => verdict <= threshold, value and resolutions equal the stock load of the analysed bytes; "
@@ -132,9 +139,9 @@ CHECKS = {
     "C10": dict(
         level="model_checking",
         technique=E3 + ": all stacks of 1..3/4 pickles over 6 severity shapes x every face of the verdict; all 36 severity pairs x 6 operators",
-        text="258 (quick) / 883 files x {per-pickle library verdict, to_dict, is_likely_safe, checked loader at 6 thresholds, CLI --check-safety under "
-        "4 option sets (exit status and decoded JSON report)} compared through an independent rank table; Severity comparison operators "
-        "checked on all ordered pairs.",
+        text="1024 / 2700 files (stacks of 1..4/5 over 7 severity shapes) x {per-pickle library verdict, to_dict, is_likely_safe, checked loader at 6 thresholds, CLI --check-safety under "
+        "4 option sets (exit status and decoded JSON report)} compared through an independent rank table; the same path rewritten and asked again; "
+        "Severity comparison operators checked on all ordered pairs.",
         ref="§3/C10",
         note="Trusted: rank table in vp/vocab.py; POSSIBLY_UNSAFE is not produced by any analysis.",
     ),
@@ -162,7 +169,8 @@ CHECKS = {
         technique=E1 + ", every terminal program and every byte-level corruption of natural malicious pickles run through all analysis entry points inside an audit-hook sandbox",
         text="Every terminal program over core opcodes x {canary module, canary sub-package, os.system, builtins.eval/exec, sink} resolved through "
         "GLOBAL / STACK_GLOBAL / INST to depth 4/5, natural __reduce__ payloads (os.system, eval, exec, Popen, socket, nested pickle.loads) at "
-        "protocols 0-5, and every proper prefix and per-offset byte replacement of those, are passed to 12 entry points (parse, stacked parse, "
+        "protocols 0-5, calls a 'helpful' analysis might evaluate (codec lookup by an input-chosen name, marshal.loads of input bytes, attribute "
+        "lookup on an already loaded module), and every proper prefix and per-offset byte replacement of those, are passed to 12 entry points (parse, stacked parse, "
         "ast, unparse, trace, check_safety, summaries, is_likely_safe, CLI decompile/trace/check-safety). A CPython audit hook in the worker "
         "records imports of named modules, exec/compile of non-library code, opens for writing, process/socket/ctypes events, find_class; "
         "sys.modules, the scratch directory and canary marker files are diffed.",
@@ -173,8 +181,9 @@ CHECKS = {
         level="model_checking",
         technique=E3 + ": payload trees (loader x container per level) x leaf global x entry point x additions; ground truth from an unprotected reference load",
         text="All payload trees of depth 0..2 (quick, 91 trees) / 0..3 (thorough, 820) with levels (torch.storage._load_from_bytes | pickle.loads | "
-        "_pickle.loads) x (bare pickle | legacy torch container | zip torch container), 3 leaf globals, through the 4 hooked entry points "
-        "under 4 addition sets. Every pickle.find_class audit event during the protected load must be allowed; if the reference load reaches "
+        "_pickle.loads) x (bare pickle | legacy torch container | zip torch container), 6 leaf globals (incl. INST-only, dotted protocol-4 "
+        "names, unlisted member of a listed module), through the 4 hooked entry points under 4 addition sets, also after a re-activation "
+        "without removal. Every pickle.find_class audit event during the protected load must be allowed; if the reference load reaches "
         "a global outside the allowed set the protected load must raise UnsafeFileError and the sink must stay empty.",
         ref="§3/C07",
         note="Trusted: find_class audit events see every unpickler instance; payloads harmless and really loaded; torch 2.14 of this image.",
@@ -182,8 +191,8 @@ CHECKS = {
     "C16": dict(
         level="model_checking",
         technique=E3 + ": saved objects x payload strings x overwrite, archive members and reloaded model compared",
-        text="10-21 saved objects (modules, state dicts, nested containers, 5 dtypes x 3 shapes incl. zero-size, shared storages) x 13-40 payloads x "
-        "overwrite: member list and bytes, data.pkl vs the library injection, input sha256, torch.load(weights_only=False) of the result under "
+        text="23 saved objects (modules, state dicts, nested containers, 5 dtypes x 3 shapes incl. zero-size, shared storages, >255 memo entries) "
+        "x 23-49 payloads x overwrite (with a stale file at the output path), plus a second injection into the same unchanged file: member list and bytes, data.pkl vs the library injection, input sha256, torch.load(weights_only=False) of the result under "
         "a sink (payload exactly once, exact text) and tensor/dtype/shape/storage-sharing equality.",
         ref="§3/C16",
         note="Trusted: torch.save/torch.load of this image as writer and reader.",
